@@ -47,12 +47,13 @@ theorem clientInit_cases (sup : List String) (pref : Option String) (ans : Answe
         clientInit sup pref ans = (.ok v, [.sent (.initialize p), .answered, .sent .initialized]))
     ∨ ((clientInit sup pref ans).1 ≠ .noVersions ∧ (∀ v, (clientInit sup pref ans).1 ≠ .ok v)
         ∧ ((clientInit sup pref ans).2 = [.sent (.initialize p), .answered]
-           ∨ (ans = .silence ∧ (clientInit sup pref ans).2 = [.sent (.initialize p)]))) := by
+           ∨ ((ans = .silence ∨ ans = .closed) ∧ (clientInit sup pref ans).2 = [.sent (.initialize p)]))) := by
   have hm := proposed_mem hp
   unfold clientInit
   rw [hp]
   cases ans with
   | silence => simp
+  | closed => simp
   | malformed => simp
   | rpcError c m =>
     simp only []
